@@ -151,3 +151,11 @@ class StaticDictV(Value):
     """a dispatch table with constant keys evaluated from the source (class body / __init__)"""
     def __init__(self, items):
         self.items = dict(items)     # python constant -> Value
+
+
+class PartialV(Value):
+    """functools.partial(func, *args, **kwargs)"""
+    def __init__(self, func, args, kwargs):
+        self.func = func
+        self.args = list(args)
+        self.kwargs = dict(kwargs)
